@@ -37,6 +37,9 @@ Ltac go_case1 :=
 Lemma ge_beq_nil s : beq s [] = (len s =? 0).
 Proof. destruct s; [reflexivity|]. cbn [beq]. unfold len. cbn [length]. symmetry. apply Z.eqb_neq. lia. Qed.
 
+Lemma ge_len_pos s : (len s >? 0) = negb (beq s []).
+Proof. rewrite ge_beq_nil. pose proof (len_nonneg s). destruct (len s =? 0) eqn:E; cbn [negb]; lia. Qed.
+
 (* an equation between two booleans: compare their truth values arithmetically *)
 Ltac go_booleq :=
   lazymatch goal with
@@ -46,8 +49,16 @@ Ltac go_booleq :=
                 unfold llen, len in *; lia
       end
   end.
+(* equal data built from the same constructors with arithmetically equal numbers *)
+Ltac go_data_eq :=
+  repeat match goal with
+  | |- Ok _ = Ok _ => apply f_equal
+  | |- Some _ = Some _ => apply f_equal
+  | |- (_, _) = (_, _) => apply f_equal2
+  | |- _ :: _ = _ :: _ => apply f_equal2
+  end; try reflexivity; try lia.
 Ltac go_close :=
-  try reflexivity; try solve [go_booleq]; try congruence; try (f_equal; lia); try (exfalso; lia);
+  try reflexivity; try solve [go_booleq]; try solve [go_data_eq]; try congruence; try (f_equal; lia); try (exfalso; lia);
   try (repeat f_equal; lia); try (rewrite <- ?app_assoc; reflexivity);
   try (exfalso; unfold llen, len in *; lia).
 Ltac go_cases := repeat (cbn [bind]; rewrite ?ge_beq_nil; try go_case1); go_close.
